@@ -1,13 +1,13 @@
 (* Net/Forward.v — C02: what the origin server is sent for a client's proxy request.
    Definitions only (lemmas: ForwardFacts.v).
 
-   Python modelled, function for function (tree after the fix: commits, + proposed fix C02-via-append):
+   Python modelled, function for function (tree after the fix: commits up to e222aa4):
      proxy/http/parser/parser.py     HttpParser.add_headers / del_headers            -> add_headers / del_headers
                                      (add_header, del_header, build, _get_body_or_chunks are in Http/Builders.v;
                                       parse and friends in Http/Parser.v)
      proxy/http/proxy/server.py      HttpProxyPlugin._queue_request_for_upstream     -> queue_request_for_upstream
                                      HttpProxyPlugin.on_request_complete             -> on_request_complete
-                                     HttpProxyPlugin.on_client_data                  -> on_client_data
+                                     HttpProxyPlugin.on_client_data / _on_client_data -> on_client_data(_loop) / on_client_data_round
                                      HttpProxyPlugin.connect_upstream                -> Http/Upstream.v connect_upstream + connect outcome
      proxy/http/proxy/auth.py        AuthPlugin.before_upstream_connection           -> before_upstream_connection (Net/Auth.v auth_ok)
      proxy/http/handler.py           HttpProtocolHandler._parse_first_request        -> parse_first_request
@@ -186,52 +186,76 @@ Definition is_connection_upgrade (p : parser) : bool :=
   option_eqb bytes_eqb (version p) (Some HTTP_1_1) && has_header p H_CONNECTION_K && has_header p H_UPGRADE_K.
 
 (* ===================================================================================== *)
-(* HttpProxyPlugin.on_client_data (data received after the first request completed)         *)
-Definition on_client_data (cfg : fcfg) (st : hstate) (raw : bytes) : outcome :=
+(* HttpProxyPlugin._on_client_data: one round over the client data; returns the outcome and the bytes
+   following a completed pipelined request (`remainder = self.pipeline_request.buffer`), None otherwise *)
+Definition clear_buffer (q : parser) : parser := set_buffer_size q None (total_size q).
+(* after _queue_request_for_upstream(self.pipeline_request): remainder taken out, pipeline_request reset
+   unless it is a connection upgrade *)
+Definition after_pipelined (st : hstate) (up : upstream) (q'' : parser) (w : bytes) : outcome * option bytes :=
+  let st1 := set_upstream st (Some (queue_upstream up w)) in
+  (Done false (set_pipeline st1 (if is_connection_upgrade q'' then Some (clear_buffer q'') else None)), buffer q'').
+
+Definition on_client_data_round (cfg : fcfg) (st : hstate) (raw : bytes) : outcome * option bytes :=
   match h_upstream st with
   | None =>
       (* plugin.handle_client_data chain; the result is not used *)
-      Done false st
+      (Done false st, None)
   | Some up =>
-      if up_closed up then Done false st else
+      if up_closed up then (Done false st, None) else
       if is_complete (h_request st) && negb (is_https_tunnel (h_request st)) then
         match h_pipeline st with
         | Some q =>
             if (negb (cf_upgrade_complete cfg) || is_complete q) && is_connection_upgrade q then
               (* previous pipelined request was an upgrade: relay as is *)
-              Done false (set_upstream st (Some (queue_upstream up raw)))
+              (Done false (set_upstream st (Some (queue_upstream up raw))), None)
             else
               match parse q raw with
-              | Err e => Raised e st
+              | Err e => (Raised e st, None)
               | Ok q' =>
                   if is_complete q' then
                     match queue_request_for_upstream cfg (is_https_tunnel (h_request st)) q' with
-                    | Err e => Raised e (set_pipeline st (Some q'))
-                    | Ok (q'', w) =>
-                        let st1 := set_upstream st (Some (queue_upstream up w)) in
-                        Done false (set_pipeline st1 (if is_connection_upgrade q'' then Some q'' else None))
+                    | Err e => (Raised e (set_pipeline st (Some q')), None)
+                    | Ok (q'', w) => after_pipelined st up q'' w
                     end
-                  else Done false (set_pipeline st (Some q'))
+                  else (Done false (set_pipeline st (Some q')), None)
               end
         | None =>
             (* self.pipeline_request = HttpParser(REQUEST_PARSER) *)
             match parse (new_parser REQUEST_PARSER) raw with
-            | Err e => Raised e (set_pipeline st (Some (new_parser REQUEST_PARSER)))
+            | Err e => (Raised e (set_pipeline st (Some (new_parser REQUEST_PARSER))), None)
             | Ok q' =>
                 if is_complete q' then
                   match queue_request_for_upstream cfg (is_https_tunnel (h_request st)) q' with
-                  | Err e => Raised e (set_pipeline st (Some q'))
-                  | Ok (q'', w) =>
-                      let st1 := set_upstream st (Some (queue_upstream up w)) in
-                      Done false (set_pipeline st1 (if is_connection_upgrade q'' then Some q'' else None))
+                  | Err e => (Raised e (set_pipeline st (Some q')), None)
+                  | Ok (q'', w) => after_pipelined st up q'' w
                   end
-                else Done false (set_pipeline st (Some q'))
+                else (Done false (set_pipeline st (Some q')), None)
             end
         end
       else
         (* tunnel: queue for the upstream server as is *)
-        Done false (set_upstream st (Some (queue_upstream up raw)))
+        (Done false (set_upstream st (Some (queue_upstream up raw))), None)
   end.
+
+(* HttpProxyPlugin.on_client_data:  remainder = raw;  while remainder is not None: remainder = self._on_client_data(remainder).
+   Every round that returns a remainder has consumed at least one byte of (carried buffer ++ raw); the fuel is
+   that length + 1 (Raised OutOfFuel would be the Python looping for ever) *)
+Fixpoint on_client_data_loop (fuel : nat) (cfg : fcfg) (st : hstate) (raw : bytes) : outcome :=
+  match fuel with
+  | O => Raised OutOfFuel st
+  | S f =>
+      match on_client_data_round cfg st raw with
+      | (Done false st', Some r) => on_client_data_loop f cfg st' r
+      | (o, _) => o
+      end
+  end.
+Definition carried (st : hstate) : bytes :=
+  match h_pipeline st with
+  | Some q => match buffer q with Some b => b | None => [] end
+  | None => []
+  end.
+Definition on_client_data (cfg : fcfg) (st : hstate) (raw : bytes) : outcome :=
+  on_client_data_loop (S (length (carried st) + length raw)) cfg st raw.
 
 (* ===================================================================================== *)
 (* HttpProtocolHandler.handle_data (data is not None)                                       *)
@@ -239,9 +263,25 @@ Definition on_client_data (cfg : fcfg) (st : hstate) (raw : bytes) : outcome :=
 Definition exc_response (k : N) : option cpkt :=
   if k =? 5 then Some BadGateway else if k =? 6 then Some AuthFailed else None.
 
+(* bytes received after the end of the first request belong to the plugin serving the connection:
+   if self.request.is_complete and self.plugin and self.request.buffer: ... self.plugin.on_client_data(remainder) *)
+Definition first_remainder (cfg : fcfg) (o : outcome) : outcome :=
+  match o with
+  | Done false st1 =>
+      match buffer (h_request st1) with
+      | Some (b0 :: bt) =>
+          if is_complete (h_request st1) && h_plugin st1
+          then on_client_data cfg (set_request st1 (clear_buffer (h_request st1))) (b0 :: bt)
+          else o
+      | _ => o
+      end
+  | _ => o
+  end.
+
 Definition handle_data (cfg : fcfg) (connect_ok : bool) (st : hstate) (data : bytes) : outcome :=
   let o :=
-    if negb (state (h_request st) =? COMPLETE) then parse_first_request cfg connect_ok st data
+    if negb (state (h_request st) =? COMPLETE)
+    then first_remainder cfg (parse_first_request cfg connect_ok st data)
     else if h_plugin st then on_client_data cfg st data
     else Done false st in
   match o with
